@@ -666,6 +666,40 @@ def rotFromToCode2 [Div K] [LT K] [DecidableLT K] (sqrt : K → K) (tol2 : K) (u
   if u0.normSq < tol2 ∨ v0.normSq < tol2 then none else
   some (rotFromTo2 (V2.normalize sqrt u0) (V2.normalize sqrt v0))
 
+/-! ## `transform_system(principal_vec, principal_default, other_vecs)` without `matrix` (round 4)
+
+The matrix that the constructors apply to the default frame: the identity if the given
+principal vector is `np.allclose` to a positive multiple of the default ("dilation only":
+the SNAP, `atol = 1e-8`, `rtol = 1e-5`), else `rotation_matrix_from_to(default, given)`.
+`none` = raises `ValueError` (exactly one of the two vectors is zero, or the given one is
+shorter than `1e-10` and not snapped); two zero vectors give the identity. -/
+
+/-- `|x|` -/
+def absK [LT K] [DecidableLT K] (x : K) : K := if x < 0 then -x else x
+
+/-- one entry of `np.allclose(a, b)`: `|a - b| ≤ atol + rtol·|b|` -/
+def closeTo [LT K] [DecidableLT K] (atol rtol a b : K) : Bool :=
+  !decide (atol + rtol * absK b < absK (a - b))
+
+/-- `transform_system` in 2-d: the matrix applied to `other_vecs`. -/
+def tsMatrix2 [Div K] [LT K] [DecidableLT K] [DecidableEq K] (sqrt : K → K) (tol2 atol rtol : K)
+    (dflt p : V2 K) : Option (M2 K) :=
+  if p.normSq = 0 ∧ dflt.normSq = 0 then some M2.one else
+  if p.normSq = 0 ∨ dflt.normSq = 0 then none else
+  let dil := sqrt p.normSq / sqrt dflt.normSq
+  if closeTo atol rtol p.x (dil * dflt.x) && closeTo atol rtol p.y (dil * dflt.y) then some M2.one
+  else rotFromToCode2 sqrt tol2 dflt p
+
+/-- `transform_system` in 3-d: the matrix applied to `other_vecs`. -/
+def tsMatrix3 [Div K] [LT K] [DecidableLT K] [DecidableEq K] (sqrt : K → K)
+    (tol2 atol rtol cpi spi : K) (dflt p : V3 K) : Option (M3 K) :=
+  if p.normSq = 0 ∧ dflt.normSq = 0 then some M3.one else
+  if p.normSq = 0 ∨ dflt.normSq = 0 then none else
+  let dil := sqrt p.normSq / sqrt dflt.normSq
+  if closeTo atol rtol p.x (dil * dflt.x) && closeTo atol rtol p.y (dil * dflt.y)
+      && closeTo atol rtol p.z (dil * dflt.z) then some M3.one
+  else rotFromToCode3 sqrt tol2 cpi spi dflt p
+
 end ops
 
 end OdlModel.Geometry
